@@ -5,7 +5,7 @@ from .gens import *
 from . import c10
 
 PROP = "C11"
-LEAN_MODULE = "RSV.Props.C11"
+LEAN_MODULE = "RSV.Props.C11all"
 LEANCHECKER = True
 RULE = ("proof: C11_linearizable / C11_matrix - for EVERY schedule of the lock-atomic interleaving model (lookup under the read "
         "lock, compute outside, insert under the write lock) and any number of callers, the cache stays sound and every caller "
